@@ -43,6 +43,7 @@ var _ = reserr.ErrNotFound
 //@   ensures[C17] forall k string :: has(b, k) && !predProtectedHeader(k) && k != "Set-Cookie" ==> has(a, k) && a[k] == b[k]
 //@   ensures[C17] forall k string :: !has(b, k) ==> has(a, k) == old(has(a, k)) && a[k] == old(a[k])
 //@   ensures[C17] has(b, "Set-Cookie") ==> has(a, "Set-Cookie") && len(a["Set-Cookie"]) == old(len(a["Set-Cookie"])) + len(b["Set-Cookie"])
+//@   assigns elems(a), elemsof([]string), alloc()
 //@   safety[C15]
 //@   loop 1 invariant a != nil && (forall k string :: has(b, k) == old(has(b, k)) && b[k] == old(b[k]))
 //@   loop 1 invariant forall k string :: predProtectedHeader(k) ==> has(a, k) == old(has(a, k)) && a[k] == old(a[k])
@@ -50,11 +51,15 @@ var _ = reserr.ErrNotFound
 //@   loop 1 invariant forall k string :: !visited1[k] || !has(b, k) ==> has(a, k) == old(has(a, k)) && a[k] == old(a[k])
 //@   loop 1 invariant visited1["Set-Cookie"] && has(b, "Set-Cookie") ==> has(a, "Set-Cookie") && len(a["Set-Cookie"]) == old(len(a["Set-Cookie"])) + len(b["Set-Cookie"])
 
-// Merge (meta of a later response overrides the earlier one) is not verified here.
+// Merge: the meta of a later response overrides the status of the earlier one only if it
+// carries one; headers are merged under the MergeHeader rules (protected headers untouched).
 //@ func (*Meta).Merge
-//@   trusted
-//@   ensures m == nil ==> result == o
-//@   ensures m != nil && o == nil ==> result == m
+//@   ensures[C17] m == nil ==> result == o
+//@   ensures[C17] m != nil && o == nil ==> result == m && m.Status == old(m.Status) && m.Header == old(m.Header)
+//@   ensures[C17] m != nil && o != nil ==> result == m && m.Status == ite(old(o.Status) != nil, old(o.Status), old(m.Status)) &&
+//@       m.Header == ite(old(m.Header) == nil, old(o.Header), old(m.Header))
+//@   assert[C17] MergeHeader#1: arg0 == old(m.Header) && arg1 == old(o.Header) && arg0 != nil
+//@   safety[C15]
 
 // Value equality: only values of the same kind can be equal (the byte comparison of the
 // encoded values is left to an uninterpreted relation).
